@@ -216,6 +216,25 @@ theorem mem_insertTx_imp {l : List Tx} {tx x : Tx} (h : x ∈ State.insertTx l t
           · exact Or.inl h
           · exact Or.inr (List.mem_cons_of_mem _ h)
 
+/-- the hashes of `insertTx l tx` are those of `l` and that of `tx` (no sortedness needed) -/
+theorem any_hash_insertTx (l : List Tx) (tx : Tx) (h : Hash) :
+    (State.insertTx l tx).any (fun t => t.hash = h) = (l.any (fun t => t.hash = h) || decide (tx.hash = h)) := by
+  induction l with
+  | nil => simp [State.insertTx]
+  | cons t rest ih =>
+    unfold State.insertTx
+    split
+    · rename_i e
+      simp only [List.any_cons, e]
+      cases decide (tx.hash = h) <;> cases rest.any (fun t => decide (t.hash = h)) <;> rfl
+    · split
+      · simp only [List.any_cons]
+        cases decide (tx.hash = h) <;> cases decide (t.hash = h) <;>
+          cases rest.any (fun t => decide (t.hash = h)) <;> rfl
+      · simp only [List.any_cons, ih]
+        cases decide (tx.hash = h) <;> cases decide (t.hash = h) <;>
+          cases rest.any (fun t => decide (t.hash = h)) <;> rfl
+
 theorem insertTx_sorted {l : List Tx} (tx : Tx) (hl : l.Pairwise TxLt) :
     (State.insertTx l tx).Pairwise TxLt := by
   induction l with
@@ -740,9 +759,16 @@ def stepResult (st : State) (tx : Tx) (coins2 : CoinMap) (mf : Nat) : State :=
 
 theorem nextStep_iff {env : Env} {t : Bool} {st st' : State} {tx : Tx} :
     nextStep env t st tx = .ok st' ↔
+      st.txs.any (fun u => u.hash = tx.hash) = false ∧
       FaucetOk env st tx ∧ ∃ coins2 mf, rmFold t (fcoins env st tx) tx.inputs = .ok coins2 ∧
         tx.baseFee st.feeMultiplier = .ok mf ∧ mf ≤ tx.fee ∧
         st' = stepResult st tx coins2 mf := by
+  by_cases hdup : st.txs.any (fun u => u.hash = tx.hash) = true
+  · constructor
+    · intro h; unfold nextStep at h; rw [if_pos hdup] at h; cases h
+    · rintro ⟨h, -⟩; rw [h] at hdup; cases hdup
+  have hdup' : st.txs.any (fun u => u.hash = tx.hash) = false := by simpa using hdup
+  rw [hdup', eq_self_iff_true, true_and]
   have e : nextStep env t st tx = (fstep env st tx).bind fun st1 =>
       (rmFold t st1.coins tx.inputs).bind fun coins2 =>
       (tx.baseFee st1.feeMultiplier).bind fun minFee =>
@@ -750,7 +776,8 @@ theorem nextStep_iff {env : Env} {t : Bool} {st st' : State} {tx : Tx} :
         else .ok { st1 with coins := coins2,
                             tips := satAdd128 st1.tips (tx.fee - minFee),
                             feePool := satAdd128 st1.feePool minFee,
-                            txs := State.insertTx st1.txs tx } := rfl
+                            txs := State.insertTx st1.txs tx } := by
+    unfold nextStep; rw [if_neg hdup]; rfl
   rw [e]
   simp only [Outcome.bind_eq_ok, fstep_iff]
   constructor
@@ -789,7 +816,7 @@ theorem nextFold_info (env : Env) (t : Bool) : ∀ (l : List Tx) (st st' : State
     intro st st' h
     rw [Outcome.foldlM'_cons_ok] at h
     obtain ⟨st1, h1, h2⟩ := h
-    obtain ⟨hF, coins2, mf, hrm, hmf, hle, rfl⟩ := nextStep_iff.mp h1
+    obtain ⟨-, hF, coins2, mf, hrm, hmf, hle, rfl⟩ := nextStep_iff.mp h1
     obtain ⟨i1, i2, i3, i4, i5, i6, i7, i8, i9, i10, i11⟩ := ih _ _ h2
     simp only [stepResult] at i1 i2 i3 i4 i5 i6 i7 i8 i9 i10 i11
     have hfee : feeOf st.feeMultiplier a = mf := by simp [feeOf, hmf, valOf]
@@ -815,7 +842,7 @@ theorem nextFold_absent (env : Env) (t : Bool) : ∀ (l : List Tx) (st st' : Sta
     rw [Outcome.foldlM'_cons_ok] at h
     obtain ⟨st1, h1, h2⟩ := h
     rcases List.mem_cons.mp hf with rfl | hf'
-    · exact ((nextStep_iff.mp h1).1 hk).1
+    · exact ((nextStep_iff.mp h1).2.1 hk).1
     · have := ih st1 st' h2
         (fun f hf hk u hu => hni f (List.mem_cons_of_mem _ hf) hk u (List.mem_cons_of_mem _ hu)) f hf' hk
       rw [getCoin_nextStep h1, if_neg (hni f hf hk a List.mem_cons_self)] at this
@@ -823,9 +850,41 @@ theorem nextFold_absent (env : Env) (t : Bool) : ∀ (l : List Tx) (st st' : Sta
       · cases this
       · exact this
 
+/-- an accepted second pass: the hashes of the list are pairwise distinct and none of them was in the
+    transaction list the pass started from (the `DuplicateTx` guard of the step) -/
+theorem nextFold_fresh (env : Env) (t : Bool) : ∀ (l : List Tx) (st st' : State),
+    Outcome.foldlM' (nextStep env t) st l = .ok st' →
+    (l.map (·.hash)).Nodup ∧ ∀ a ∈ l, st.txs.any (fun u => u.hash = a.hash) = false := by
+  intro l
+  induction l with
+  | nil => intro st st' _; exact ⟨List.nodup_nil, fun a ha => by cases ha⟩
+  | cons a rest ih =>
+    intro st st' h
+    rw [Outcome.foldlM'_cons_ok] at h
+    obtain ⟨st1, h1, h2⟩ := h
+    obtain ⟨hnd, -, coins2, mf, -, -, -, rfl⟩ := nextStep_iff.mp h1
+    obtain ⟨i1, i2⟩ := ih _ _ h2
+    have key : ∀ f ∈ rest, st.txs.any (fun u => u.hash = f.hash) = false ∧ a.hash ≠ f.hash := by
+      intro f hf
+      have := i2 f hf
+      simp only [stepResult] at this
+      rw [any_hash_insertTx, Bool.or_eq_false_iff] at this
+      exact ⟨this.1, by simpa using this.2⟩
+    refine ⟨?_, ?_⟩
+    · rw [List.map_cons, List.nodup_cons]
+      refine ⟨?_, i1⟩
+      intro hm
+      obtain ⟨f, hf, e⟩ := List.mem_map.mp hm
+      exact (key f hf).2 e.symm
+    · intro x hx
+      rcases List.mem_cons.mp hx with rfl | hx
+      · exact hnd
+      · exact (key x hx).1
+
 /-- static side conditions of the second pass (all invariant under permutation) -/
 structure NextStatic (env : Env) (s : State) (l : List Tx) : Prop where
   nodup : l.Nodup
+  hnodup : (l.map (·.hash)).Nodup
   dist : ∀ a ∈ l, ∀ f ∈ l, insertsMarker env a = true → f.kind = .faucet →
     markerOf env a = markerOf env f → f = a
   notInp : ∀ f ∈ l, f.kind = .faucet → ∀ u ∈ l, markerOf env f ∉ u.inputs
@@ -835,6 +894,7 @@ structure NextStatic (env : Env) (s : State) (l : List Tx) : Prop where
 theorem NextStatic.tail {env : Env} {s : State} {a : Tx} {rest : List Tx}
     (h : NextStatic env s (a :: rest)) : NextStatic env s rest where
   nodup := (List.nodup_cons.mp h.nodup).2
+  hnodup := by have := h.hnodup; rw [List.map_cons, List.nodup_cons] at this; exact this.2
   dist := fun x hx f hf => h.dist x (List.mem_cons_of_mem _ hx) f (List.mem_cons_of_mem _ hf)
   notInp := fun f hf hk u hu => h.notInp f (List.mem_cons_of_mem _ hf) hk u (List.mem_cons_of_mem _ hu)
   netOk := fun f hf => h.netOk f (List.mem_cons_of_mem _ hf)
@@ -843,6 +903,7 @@ theorem NextStatic.tail {env : Env} {s : State} {a : Tx} {rest : List Tx}
 theorem NextStatic.perm {env : Env} {s : State} {l l' : List Tx} (hp : l.Perm l')
     (h : NextStatic env s l) : NextStatic env s l' where
   nodup := h.nodup.perm hp
+  hnodup := (hp.map _).nodup_iff.mp h.hnodup
   dist := fun x hx f hf => h.dist x (hp.mem_iff.mpr hx) f (hp.mem_iff.mpr hf)
   notInp := fun f hf hk u hu => h.notInp f (hp.mem_iff.mpr hf) hk u (hp.mem_iff.mpr hu)
   netOk := fun f hf => h.netOk f (hp.mem_iff.mpr hf)
@@ -855,6 +916,7 @@ structure NextInv (env : Env) (s : State) (st : State) (l : List Tx) : Prop wher
   fm : st.feeMultiplier = s.feeMultiplier
   counts : s.tip906 = true → CountsOk st.coins
   absent : ∀ f ∈ l, f.kind = .faucet → st.coins.getCoin (markerOf env f) = none
+  notIn : ∀ a ∈ l, st.txs.any (fun u => u.hash = a.hash) = false
 
 theorem insertsMarker_faucet {env : Env} {tx : Tx} (h : insertsMarker env tx = true) : tx.kind = .faucet := by
   simp [insertsMarker] at h; exact h.1
@@ -891,9 +953,17 @@ theorem nextFold_accepts (env : Env) (s : State) : ∀ (l : List Tx) (st : State
         exact ⟨c, hc, fun _ => hok⟩
     obtain ⟨mf, hmf, hle⟩ := hst.fee a List.mem_cons_self
     have hstep : nextStep env s.tip906 st a = .ok (stepResult st a coins2 mf) :=
-      nextStep_iff.mpr ⟨hF, coins2, mf, hrm, by rw [hinv.fm]; exact hmf, hle, rfl⟩
+      nextStep_iff.mpr ⟨hinv.notIn a List.mem_cons_self, hF, coins2, mf, hrm, by rw [hinv.fm]; exact hmf, hle, rfl⟩
     have hinv2 : NextInv env s (stepResult st a coins2 mf) rest := by
-      refine ⟨hinv.net, hinv.height, hinv.fm, hc2, ?_⟩
+      refine ⟨hinv.net, hinv.height, hinv.fm, hc2, ?_, ?_⟩
+      rotate_left
+      · intro f hf
+        simp only [stepResult]
+        rw [any_hash_insertTx, hinv.notIn f (List.mem_cons_of_mem _ hf), Bool.false_or]
+        have hn := hst.hnodup
+        rw [List.map_cons, List.nodup_cons] at hn
+        have : a.hash ≠ f.hash := fun e => hn.1 (List.mem_map.mpr ⟨f, hf, e.symm⟩)
+        simpa using this
       intro f hf hk
       have hfa : f ≠ a := by
         intro e; subst e
@@ -923,7 +993,7 @@ theorem nextFold_counts_false (env : Env) : ∀ (l : List Tx) (st st' : State), 
     intro st st' ht h
     rw [Outcome.foldlM'_cons_ok] at h
     obtain ⟨st1, h1, h2⟩ := h
-    obtain ⟨-, coins2, mf, hrm, -, -, rfl⟩ := nextStep_iff.mp h1
+    obtain ⟨-, -, coins2, mf, hrm, -, -, rfl⟩ := nextStep_iff.mp h1
     have ht1 : State.tip906 (stepResult st a coins2 mf) = false := by
       rw [← ht]; exact tip906_eq rfl rfl
     rw [ih _ _ ht1 h2]
@@ -1087,9 +1157,11 @@ theorem createNext_perm {env : Env} {s next : State} {txs txs' : List Tx} {rel r
   obtain ⟨i1, i2, i3, i4, i5, i6, i7, i8, i9, i10, i11⟩ := nextFold_info env _ txs _ _ h0
   simp only [startState] at i1 i2 i3 i4 i5 i6 i7 i8 i9 i10 i11
   have hstat : NextStatic env s txs :=
-    ⟨nodup_of_hashes hpre.hashes, hpre.dist, hpre.notInp, fun f hf hk => (i11 f hf).2 hk,
+    ⟨nodup_of_hashes hpre.hashes, hpre.hashes, hpre.dist, hpre.notInp, fun f hf hk => (i11 f hf).2 hk,
       fun a ha => (i11 a ha).1⟩
   have habs := nextFold_absent env _ txs _ _ h0 hpre.notInp
+  have hfr := (nextFold_fresh env _ txs _ _ h0).2
+  simp only [startState] at hfr
   -- the two start states hold the same coins
   have hfreshIds : ∀ (l : List Tx), (∀ t ∈ l, ∀ i, s.coins.getCoin ⟨t.hash, i⟩ = none) →
       ∀ (r : Relevant), ∀ id ∈ outputIds l, s.coins.getCoin id = none ∨ s.coins.getCoin id = r.get id := by
@@ -1103,13 +1175,13 @@ theorem createNext_perm {env : Env} {s next : State} {txs txs' : List Tx} {rel r
     have : k ∈ outputIds txs' ↔ k ∈ outputIds txs := (outputIds_perm hp).mem_iff.symm
     simp only [this]
   have hinv0 : NextInv env s (startState s ((outputIds txs).foldl (insStep rel s.tip906) s.coins)) txs := by
-    refine ⟨rfl, rfl, rfl, ?_, habs⟩
+    refine ⟨rfl, rfl, rfl, ?_, habs, hfr⟩
     intro ht
     simp only [startState]
     rw [ht]
     exact insFold_counts_true rel _ _ hpre.counts (hfreshIds txs hpre.fresh rel)
   have hinv0' : NextInv env s (startState s ((outputIds txs').foldl (insStep rel' s.tip906) s.coins)) txs' := by
-    refine ⟨rfl, rfl, rfl, ?_, ?_⟩
+    refine ⟨rfl, rfl, rfl, ?_, ?_, fun a ha => hfr a (hp.mem_iff.mpr ha)⟩
     · intro ht
       simp only [startState]
       rw [ht]
@@ -1218,6 +1290,36 @@ theorem perm_main {env : Env} {s s₁ : State} {txs txs' : List Tx} {fb : Header
   intro k
   simp only [finish]
   rw [stakeFold_get, stakeFold_get, hns, c11]
+
+/-! ### a block holds a transaction at most once (the `DuplicateTx` guard of `createNextState`) -/
+
+/-- an accepted batch: its hashes are pairwise distinct and none of them is already in the block -/
+theorem applyBatch_fresh {env : Env} {s s' : State} {txs : List Tx} {fb : Header}
+    (h : applyBatch env s txs fb = .ok s') :
+    (txs.map (·.hash)).Nodup ∧ ∀ a ∈ txs, s.txs.any (fun u => u.hash = a.hash) = false := by
+  obtain ⟨rel, ns, sp, next, -, -, -, -, h5, -⟩ := applyBatch_iff.mp h
+  rw [createNextState_eq'] at h5
+  have := nextFold_fresh env _ txs _ _ h5
+  exact this
+
+/-- the transaction list after an accepted batch -/
+theorem applyBatch_txsEq {env : Env} {s s' : State} {txs : List Tx} {fb : Header}
+    (h : applyBatch env s txs fb = .ok s') : s'.txs = txs.foldl State.insertTx s.txs := by
+  obtain ⟨rel, ns, sp, next, -, -, -, -, h5, rfl⟩ := applyBatch_iff.mp h
+  rw [createNextState_eq'] at h5
+  exact (nextFold_info env _ txs _ _ h5).2.2.2.2.2.2.2.2.2.1
+
+theorem nodup_hashes_of_sorted : ∀ {l : List Tx}, l.Pairwise TxLt → (l.map (·.hash)).Nodup
+  | [], _ => List.nodup_nil
+  | a :: rest, h => by
+    rw [List.pairwise_cons] at h
+    simp only [List.map_cons, List.nodup_cons, List.mem_map, not_exists, not_and]
+    exact ⟨fun y hy e => bytesLt_ne (h.1 y hy) e.symm, nodup_hashes_of_sorted h.2⟩
+
+theorem any_hash_iff {l : List Tx} {h : Hash} :
+    l.any (fun u => u.hash = h) = true ↔ ∃ t ∈ l, t.hash = h := by
+  simp [List.any_eq_true]
+
 
 end C3
 end Mel
